@@ -554,6 +554,8 @@ def job_complete_ecdsa(seed, tier):
                 R.case(kind, "completeness", sp.desc, "honest", "sign_input, %d in / %d out, input %d" % (shape["n_in"], shape["n_out"], shape["index"]))
                 if sp.api_result is not True:
                     R._fail(kind, "completeness", "Tx.sign_input returned %r for an honest %s spend" % (sp.api_result, kind), sp.desc, CLAUSE_COMPLETE, {"template": kind})
+    sp = H.spend_single("p2pkh", seed * 100 + 9, uncompressed=True, **SHAPES[1])
+    R.case("p2pkh", "completeness", sp.desc, "honest", "uncompressed public key")
     for kind in ("p2sh-ms", "p2wsh-ms", "p2sh-p2wsh-ms"):
         for (m, n) in _mn(tier):
             for si, signers in enumerate(H.subsets(n, m)):
@@ -603,7 +605,7 @@ def _single_job(kind):
         from verif.harness import verify as H
         R = Run("mut-" + kind, seed, tier)
         rng = random.Random(seed * 7919 + len(kind))
-        shapes = [SHAPES[1]] if tier == "quick" else [SHAPES[0], SHAPES[1], SHAPES[2]]
+        shapes = [SHAPES[1], SHAPES[0]] if tier == "quick" else [SHAPES[0], SHAPES[1], SHAPES[2]]
         for si, shape in enumerate(shapes):
             sp = H.spend_single(kind, seed * 100 + 50 + si, **shape)
             R.sp = sp
@@ -620,7 +622,7 @@ def _single_job(kind):
 def _multisig_job(kind):
     def job(seed, tier):
         from verif.harness import verify as H
-        R = Run("mut-" + kind, seed, tier, budget=(100 if tier == "quick" else 1250))
+        R = Run("mut-" + kind, seed, tier, budget=(100 if tier == "quick" else 1000))
         rng = random.Random(seed * 7919 + len(kind))
         combos = _mn(tier)
         for ci, (m, n) in enumerate(combos):
@@ -673,7 +675,7 @@ def job_mut_p2tr_key(seed, tier):
 
 def job_mut_p2tr_script(seed, tier):
     from verif.harness import verify as H
-    R = Run("mut-p2tr-script", seed, tier, budget=(100 if tier == "quick" else 1250))
+    R = Run("mut-p2tr-script", seed, tier, budget=(100 if tier == "quick" else 1000))
     rng = random.Random(seed * 7919 + 4)
     plans = [([(1, 1)], 0, SHAPES[0]), ([(1, 1), (1, 1), (1, 1)], 2, SHAPES[1])]
     if tier != "quick":
@@ -694,7 +696,7 @@ def job_mut_p2tr_script(seed, tier):
 
 def job_mut_p2tr_multisig(seed, tier):
     from verif.harness import verify as H
-    R = Run("mut-p2tr-multisig", seed, tier, budget=(100 if tier == "quick" else 1250))
+    R = Run("mut-p2tr-multisig", seed, tier, budget=(100 if tier == "quick" else 1000))
     rng = random.Random(seed * 7919 + 5)
     for (k, n) in _mn(tier):
         if n == 1:
